@@ -330,7 +330,58 @@ func c16OS(u *vfUnit, part, parts int) {
 	u.Sample(map[string]any{"server": "Server", "sizes": fmt.Sprint(sizes[:min(len(sizes), 12)]), "oracle": "multiset of (name,size,mode,mtime) vs os.Lstat"})
 }
 
+// c16InMem: the package's own example backend: a directory of 150 entries listed by its name and through a
+// symbolic link to it, in small and default batches.
+func c16InMem(u *vfUnit) {
+	defer func() { MaxFilelist = 100 }()
+	for _, batch := range []int{7, 100} {
+		MaxFilelist = int64(batch)
+		sess, err := vfConnect(vfSrvCfg{Kind: vfRS, H: InMemHandler()}, vfPipeOpts{})
+		if err != nil {
+			u.Inconclusive("connect: %v", err)
+			return
+		}
+		c := sess.C
+		c.Mkdir("/real")
+		var want []string
+		for i := 0; i < 150; i++ {
+			name := fmt.Sprintf("e%03d", i)
+			if i%10 == 3 {
+				c.Mkdir("/real/" + name)
+			} else if f, err := c.Create("/real/" + name); err == nil {
+				f.Write(make([]byte, i%40))
+				f.Close()
+			}
+			want = append(want, name)
+		}
+		c.Symlink("/real", "/lnk")
+		for _, dir := range []string{"/real", "/lnk"} {
+			label := fmt.Sprintf("RequestServer(InMemHandler)/batch=%d/dir=%s", batch, dir)
+			u.Eval(label)
+			u.Count("listings", 1)
+			got, _, ok := c16List(u, sess, dir, label)
+			if !ok {
+				continue
+			}
+			var names []string
+			for _, e := range got {
+				names = append(names, e.Name())
+			}
+			sort.Strings(names)
+			if strings.Join(names, ",") != strings.Join(want, ",") {
+				u.Violation("listing-mismatch:"+label, fmt.Sprintf("ReadDir(%s) of the in-memory backend returned %d entries, the directory has %d (first names: %v)", dir, len(names), len(want), names[:min(len(names), 5)]), nil)
+			}
+		}
+		if msg := sess.Close(); msg != "" {
+			u.Violation("listing-close", msg, nil)
+		}
+	}
+}
+
 func c16RS(u *vfUnit, part, parts int) {
+	if part == 0 {
+		c16InMem(u)
+	}
 	defer func() { MaxFilelist = 100 }()
 	batches := []int{1, 2, 3, 7}
 	if u.Tier == vfThorough {
